@@ -66,10 +66,11 @@ proof fn lemma_char_len_bounds(ws: Seq<WordShape>, n: int)
     ensures 0 <= ref_char_len(ws, n) <= n * 0x4000_0000
     decreases n
 { if n > 0 { lemma_char_len_bounds(ws, n - 1); } }
-// assumed here, proved in unit `text`: what text_match returns
+// contract of text_match: proved on the real body in unit `text` (same text, common/tm_contract.rs); the thread-local
+// scratch state it needs (DAMLEV.wf) is established by DamerauLevenshtein::new and preserved by every call
 #[verifier::external_body]
 fn text_match(rtext: &TextRef, qtext: &TextRef) -> (ret: (Vec<WordMatch>, Vec<WordMatch>))
-    requires text_wf(rtext), text_wf(qtext),
+    requires text_wf(rtext), text_wf(qtext), text_small(rtext), text_small(qtext),
     ensures tm_post(rtext, qtext, ret),
 { unimplemented!() }
 // @item rust/core/src/search/score.rs :: fn score_chars_up
@@ -234,7 +235,7 @@ pub fn score_char_len_down(hit: &Hit) -> (ret: isize)
 }
 // @item rust/core/src/search/score.rs :: fn score
 pub fn score(query: &TextRef, hit: &mut Hit)
-    requires text_wf(&old(hit).title), text_wf(query), old(hit).rating < 0x8000_0000,
+    requires text_wf(&old(hit).title), text_wf(query), text_small(&old(hit).title), text_small(query), old(hit).rating < 0x8000_0000,
     // C08: slot k of the score vector holds component k, in the documented priority order
     // (chars, words, tails, gaps, finished, offset, rating, word count, char count)
     ensures ({
